@@ -33,8 +33,9 @@ def _mk(name, **kw):
 
 
 class _Unmodelled:
-    def __init__(self, name):
+    def __init__(self, name, **modelled):
         self._name = name
+        self.__dict__.update(modelled)
 
     def __getattr__(self, k):
         raise core.Abort("unsupported", f"unmodelled dependency {self._name}.{k}")
@@ -44,9 +45,9 @@ class _Unmodelled:
 
 
 def build_fake_modules(overrides=None):
-    from .models import optimize as m_opt, special as m_special, h5store, executor
+    from .models import optimize as m_opt, special as m_special, h5store, executor, integrate as m_int
     np_ = npshim.symnp
-    scipy = _mk("scipy", ndimage=m_ndimage, optimize=m_opt, integrate=_Unmodelled("scipy.integrate"),
+    scipy = _mk("scipy", ndimage=m_ndimage, optimize=m_opt, integrate=_Unmodelled("scipy.integrate", dblquad=m_int.dblquad),
                 spatial=m_spatial, special=m_special)
     fake = {
         "numpy": np_,
